@@ -55,6 +55,12 @@ def apply_track(t, a, k=0):
         arg = content(a["arg"], "nc" if k % 2 else "list")
         if arg is not None and len(a["arg"]["items"]) == 1 and k % 3 == 0:
             arg = arg[0] if isinstance(arg, list) else arg
+        if isinstance(arg, list) and len(arg) >= 2 and all(isinstance(x, Note) for x in arg):
+            # one list mixing the documented ways of naming a note with its octave: the Note object, 'Name-octave' text and,
+            # where no instrument has to judge the range (it takes notes and text only), the [name, octave] pair
+            kinds = 3 if t.instrument is None else 2
+            arg = [x if (k + i) % kinds == 0 else "%s-%d" % (x.name, x.octave) if (k + i) % kinds == 1 else [x.name, x.octave]
+                   for i, x in enumerate(arg)]
         return t.add_notes(arg) if a.get("dflt") else t.add_notes(arg, build(a["v"]))
     if op == "plus":
         arg = content(a["arg"], "nc")
